@@ -248,6 +248,7 @@ type storeWorld struct {
 	onGetDone  func(op *storeOp, res int, invokeAlloc int)
 	onFindDone func(op *storeOp, present []bool, invokeAlloc int)
 	onPutDone  func(op *storeOp, u *upload, err error)
+	beforeOp   func(w *storeWorld, op *storeOp)
 	srcStats   []*sim.SrcStats
 	srcByteSlice int
 }
@@ -539,8 +540,10 @@ func (w *storeWorld) doGet(op *storeOp) {
 			w.c.Fail("wrong-bytes", "%s returned %s, expected %s", op, short(got), short(expect))
 			return
 		}
-	} else {
-		// partial: must be the right range
+	} else if !w.tolerateIntegrity {
+		// partial: must be the right range (when the medium is being
+		// corrupted on purpose, a partial read may see wrong bytes before
+		// validation gets a chance to fail)
 		off := 0
 		if op.Cons == consReadAt {
 			off = op.Off
@@ -615,6 +618,9 @@ func (w *storeWorld) doFind(op *storeOp) {
 }
 
 func (w *storeWorld) exec(op *storeOp) {
+	if w.beforeOp != nil {
+		w.beforeOp(w, op)
+	}
 	switch op.Kind {
 	case opPut, opRotate:
 		w.doPut(op)
